@@ -302,11 +302,18 @@ def ref_gae(g, l, R, V, D, nv, nd):
     return out
 
 
-def close(a, b, exact):
+def close(a, b, exact, tol=TOL):
     a, b = F(a), F(b)
     if exact:
         return a == b
-    return abs(a - b) <= F(TOL) * (1 + abs(b))
+    return abs(a - b) <= F(tol) * (1 + abs(b))
+
+
+def case_tol(case):
+    """float32 rounding is relative to the magnitude of the INPUTS (an estimate may cancel to ~0): scaled rollouts get a
+    tolerance scaled with them"""
+    k = case.get("magnitude")
+    return TOL * (2.0 ** k if k and k > 0 else 1.0)
 
 
 class C17(vlib.Driver):
@@ -394,6 +401,11 @@ class C17(vlib.Driver):
                       "D": [rng.choice(["bool", "int", "i64", "u8", "f32"])] + [rng.choice([fl(), "bool", "int"]) for _ in range(T - 1)],
                       "V": [rng.choice(["int", "i64"]) if narrow_v else rng.choice(["f32", "f64"])] + [fl() for _ in range(T - 1)]}
         c["types"]["R"][1] = fl()
+        if rng.random() < 0.25:     # every reward integral and integer-typed: the stacked rewards are an integer array
+            for g in c["groups"]:
+                g["R"] = [[[float(rng.randint(-3, 3)) for _ in row] for row in m] for m in g["R"]]
+            c["types"]["R"] = [rng.choice(["i8", "int", "i64", "i32"]) for _ in range(T)]
+            c["all_int_rewards"] = True
         c.pop("variant", None)
         return c
 
@@ -855,7 +867,7 @@ class C17(vlib.Driver):
         if obs["error"] is not None or len(obs["groups"]) != len(case["groups"]):
             return None
         T, E = case["T"], case["E"]
-        tol = "0" if obs["exact"] else coq_Q(F(TOL))
+        tol = "0" if obs["exact"] else coq_Q(F(case_tol(case)))
         g, l = coq_Q(case["gamma"]), coq_Q(case["lam"])
         ql = lambda xs: "[" + "; ".join(coq_Q(x) for x in xs) + "]"
         qm = lambda m: "[" + "; ".join(ql(r) for r in m) + "]"
@@ -917,6 +929,7 @@ class C17(vlib.Driver):
         out = []
         algo, T, E = case["algo"], case["T"], case["E"]
         exact = bool(obs.get("exact", case["exact"]))
+        ctol = case_tol(case)
         shape = f"T={T},A={case['groups'][0]['A']},E={E}"
         if obs["error"] is not None:
             nmin = min(T * g["A"] * E for g in case["groups"])
@@ -958,11 +971,11 @@ class C17(vlib.Driver):
                 seen.add((t, a, e))
                 if F(val) != F(gr["V"][a][t][e]):
                     bad_val.append((r, (t, a, e), val, gr["V"][a][t][e]))
-                if not close(adv, ref[(a, e)][t], exact):
+                if not close(adv, ref[(a, e)][t], exact, ctol):
                     bad_adv.append((r, (t, a, e), adv, float(ref[(a, e)][t])))
-                    if not close(adv, ref_p[(a, e)][t], exact):
+                    if not close(adv, ref_p[(a, e)][t], exact, ctol):
                         pinned_ok = False
-                elif not close(ret, ref[(a, e)][t] + F(gr["V"][a][t][e]), exact):
+                elif not close(ret, ref[(a, e)][t] + F(gr["V"][a][t][e]), exact, ctol):
                     bad_ret.append((r, (t, a, e), ret, float(ref[(a, e)][t] + F(gr["V"][a][t][e]))))
             where = f"{algo} group {gi} {shape} vec={case['vec']} gamma={case['gamma']} lambda={case['lam']}"
             if bad_tags:
@@ -975,7 +988,7 @@ class C17(vlib.Driver):
                 # are the estimates right but on the wrong rows?
                 want = sorted(float(x) for col in ref.values() for x in col)
                 got = sorted(r[3] for r in rows)
-                moved = all(close(x, y, exact) for x, y in zip(got, want))
+                moved = all(close(x, y, exact, ctol) for x, y in zip(got, want))
                 if algo == "ippo" and pinned_ok and not bad_val and not bad_tags and A >= 2 and E >= 2:
                     out.append(Violation("gae-definition", "ippo:next_done-order",
                                          f"{where}: advantages use next_done of another (agent, env): next_done is laid out (env, agent) "
@@ -1046,7 +1059,10 @@ class C17(vlib.Driver):
                 diff = []
                 for t in range(k + 1):
                     x, y = r1.get(tag(t, a, e, case.get("ts", 64))), r2.get(tag(t, a, e, case.get("ts", 64)))
-                    if x is None or y is None or x[3] != y[3] or x[4] != y[4]:
+                    # bit-identical, unless the per-step number types differ between the two rollouts (then the stacked dtype,
+                    # hence the float width of the arithmetic, may differ): tolerance
+                    same = (lambda u, v: u == v) if not case.get("types") else (lambda u, v: close(u, v, False))
+                    if x is None or y is None or not same(x[3], y[3]) or not same(x[4], y[4]):
                         diff.append((t, x, y))
                 if diff:
                     out.append(Violation("no-leak", f"{algo}:no-leak",
@@ -1107,6 +1123,8 @@ class C17(vlib.Driver):
                 labs.append(flag)
         if case.get("magnitude") is not None:
             labs.append(f"magnitude=2^{case['magnitude']}")
+        if case.get("all_int_rewards"):
+            labs.append("all-rewards-integer-typed")
         if case.get("types"):
             ty = case["types"]
             labs += ["mixed-step-types", f"first-reward-type={ty['R'][0]}", f"first-done-type={ty['D'][0]}", f"first-value-type={ty['V'][0]}"]
